@@ -160,9 +160,11 @@ KC = Obj(FC, "KeyConverter", _input_file=Str(), _output_file=Str(), _array_type=
 
 c = Contract(FC, "KeyConverter.__init__", ["C15"])
 c.param("self", Obj(FC, "KeyConverter"))
-for n_ in _CONV_STR:
+for n_ in _CONV_STR[:6]:  # (parameters in the order of the real signature)
     c.param(n_, Str())
 c.param("columns_count", Int())
+c.param("header_file", Str())
+c.param("footer_file", Str())
 c.param("indentation_count", OneOf(0, 1, 2, 4, 8, -1))
 c.param("indentation_tab", Bool())
 c.param("no_length", Bool())
